@@ -17,7 +17,7 @@ from simkit.rng import SimRng
 
 
 def _tol(kind: str, scale: float) -> float:
-    return (2e-5 if kind == "scipy" else 1e-9) * (1.0 + abs(scale))
+    return (2e-5 if kind.startswith("scipy") else 1e-9) * (1.0 + abs(scale))
 
 
 def _steps_to_protocol(steps):  # noqa: ANN001, ANN202
@@ -431,7 +431,7 @@ class Exec:
 # --------------------------------------------------------------------------
 def gen_spec(rng: SimRng, prop: str, integ: str) -> dict:
     r = rng("spec")
-    fams = ["F1", "F2", "F2r", "F4", "F6", "F1", "F2"] + (["F3", "F3", "F5"] if integ == "scipy" else ["F5"])
+    fams = ["F1", "F2", "F2r", "F4", "F6", "F1", "F2"] + (["F3", "F3", "F5"] if integ.startswith("scipy") else ["F5"])
     fam = r.choice(fams)
     variables, params = models.FAMILIES[fam]
     p = {}
@@ -562,7 +562,7 @@ def make_config(rng: SimRng, prop: str, tier: str, avoid: set[str]) -> dict:
         "n_ops": r.randint(4, 12 if tier == "quick" else 18),
         "ops": ops,
         "illegal_rate": r.choice([0.1, 0.2, 0.3]),
-        "integrator": r.choice(["scipy", "exact", "exact"]),
+        "integrator": r.choice(["scipy", "exact", "exact", "scipy", "exact", "exact", "scipy:RK45", "scipy:BDF"]),
         "ragged": r.random() < 0.2,
     }
 
@@ -570,7 +570,7 @@ def make_config(rng: SimRng, prop: str, tier: str, avoid: set[str]) -> dict:
 class SimTimeMachine(Machine):
     name = "simtime"
     properties = ("C04", "C14")
-    runs = {"quick": 5000, "thorough": 300000}
+    runs = {"quick": 4000, "thorough": 300000}
     run_timeout = 120.0
     real_components = [
         "mxlpy.Simulator (simulate, simulate_time_course, simulate_protocol, simulate_protocol_time_course, overrides, clear_results, get_result)",
@@ -607,8 +607,8 @@ class SimTimeMachine(Machine):
         ops: list[dict] = []
         for i in range(cfg["n_ops"]):
             kind = rng.weighted("plan", list(cfg["ops"].items()))
-            if kind == "steady_state" and models.steady_state(spec["family"], ex.ref.p) is None:
-                kind = "simulate"
+            if kind == "steady_state" and (models.steady_state(spec["family"], ex.ref.p) is None or ":" in cfg["integrator"]):
+                kind = "simulate"  # (the steady-state loop only knows scipy.integrate.ode's own solvers)
             op = gen.op(kind, ex.ref.T)
             ops.append(op)
             ex.step(i, op)
